@@ -347,7 +347,16 @@ pub fn primal_infeasible(rng: &mut Rng, n: usize, mut cones: Vec<SupportedConeT<
     b[m - 1] = (-1.0 - bacc) / zl;
     let pk = rng.below(2);
     let P = random_P(rng, n, pk);
-    let q: Vec<f64> = (0..n).map(|_| rng.range(-2, 2) as f64).collect();
+    // the dual problem is made strictly feasible (q = -(P x0 + A' z0) with z0 in int K*), so the
+    // instance is primal infeasible but NOT also dual infeasible: exactly one verdict is right
+    let x0: Vec<f64> = (0..n).map(|_| rng.range(-2, 2) as f64).collect();
+    let mut z0 = vec![];
+    for c in cones.iter() {
+        z0.extend(interior_dual(rng, c));
+    }
+    let Px0 = matvec(&P, &x0);
+    let Atz0 = matvec_t(&A, &z0, n);
+    let q: Vec<f64> = (0..n).map(|j| -(Px0[j] + Atz0[j])).collect();
     let label = format!("pinf n={} cones=[{}]", n, cones.iter().map(cone_name).collect::<Vec<_>>().join(","));
     Prob { P: triu(&P, n), q, A: dense_to_csc(&A, m, n), b, cones, label, intent: 1 }
 }
@@ -371,7 +380,15 @@ pub fn dual_infeasible(rng: &mut Rng, n: usize, cones: Vec<SupportedConeT<f64>>)
         A[i][0] = (-s[i] - acc) / x[0];
     }
     let q: Vec<f64> = x.iter().map(|v| -v).collect();
-    let b: Vec<f64> = (0..m).map(|_| rng.range(-2, 2) as f64).collect();
+    // the primal problem is made strictly feasible (b = A x0 + s0 with s0 in int K), so the
+    // instance is dual infeasible (unbounded) but NOT also primal infeasible
+    let x0: Vec<f64> = (0..n).map(|_| rng.range(-2, 2) as f64).collect();
+    let mut s0 = vec![];
+    for c in cones.iter() {
+        s0.extend(interior_primal(rng, c));
+    }
+    let Ax0 = matvec(&A, &x0);
+    let b: Vec<f64> = (0..m).map(|i| Ax0[i] + s0[i]).collect();
     let P = vec![vec![0.0; n]; n];
     let label = format!("dinf n={} cones=[{}]", n, cones.iter().map(cone_name).collect::<Vec<_>>().join(","));
     Prob { P: triu(&P, n), q, A: dense_to_csc(&A, m, n), b, cones, label, intent: 2 }
